@@ -54,6 +54,10 @@ prop("C19", [
       bounds="PasswordAlgorithms (%s), clone, one add on the %s, arbitrary algorithm ids" % (("holding one algorithm" if "one" in n else "empty"), ("original" if n.endswith("orig") else "clone")),
       funcs=["PasswordAlgorithms::add/clone/password_algorithms"]) for n in ("empty_orig", "empty_copy")  # the non-empty instances (Arc::make_mut deep-copies the Vec) exhaust 18 GB: not registered
 ] + [
+    H("stunrs", VAL + "c19_password_algorithms_into_iter_shared_" + n, tier=t, timeout=900, mem_gb=10, covers=None, stubs=[NOFMT],
+      bounds="PasswordAlgorithms (%s) with a live clone; the consuming into_iter on either copy" % ("one algorithm" if n == "one" else "empty"),
+      funcs=["<PasswordAlgorithms as IntoIterator>::into_iter", "PasswordAlgorithms::clone/from<Vec>/password_algorithms"]) for (n, t) in (("empty", "quick"), ("one", "quick"))
+] + [
     H("stunrs", VAL + "c19_unknown_attributes_clone_mutate", timeout=300, mem_gb=4, covers=1, stubs=[NOFMT],
       bounds="1 element, clone, one add on either copy, arbitrary u16 values",
       funcs=["UnknownAttributes::add/clone/attributes"]),
@@ -84,7 +88,7 @@ for (rto, rc) in ((500, 7), (500, 1), (3000, 3)):
                   bounds="RTO=%d ms, Rc=%d, Rm symbolic 1..32, first call at an arbitrary instant" % (rto, rc),
                   funcs=["RtoManager::new", "RtoManager::next_rto"]))
 for (rto, rc, i, tier) in ([(500, 7, i, "quick") for i in range(1, 8)] + [(500, 1, 1, "quick"), (500, 2, 1, "quick"), (500, 2, 2, "quick"),
-                           (1, 4, 1, "thorough"), (1, 4, 3, "thorough"), (3000, 3, 1, "thorough"), (3000, 3, 2, "thorough"), (3000, 3, 3, "thorough"),
+                           (1, 4, 1, "thorough"), (1, 4, 3, "thorough"), (3000, 3, 1, "thorough"), (3000, 3, 2, "quick"), (3000, 3, 3, "quick"),
                            (500, 10, 1, "thorough"), (500, 10, 5, "thorough"), (500, 10, 9, "thorough"), (500, 10, 10, "thorough"),
                            (100, 5, 1, "thorough"), (100, 5, 3, "thorough"), (100, 5, 5, "thorough"), (250, 4, 2, "thorough"), (250, 4, 4, "thorough")]):
     _c06.append(H("agent", TMO + "c06_step_rto%d_rc%d_i%d" % (rto, rc, i), tier=tier, timeout=2400 if rc == 10 else 600, mem_gb=6, covers=(2 if i == rc else 3), stubs=[CDS],
@@ -525,7 +529,15 @@ _C18V = [H("stunrs", CTX + n, tier=t, timeout=2400, mem_gb=14, covers=None, stub
     ("c18v_validate_fp_fp", "thorough", "FINGERPRINT, FINGERPRINT", "with_validation"),
     ("c18v_validate_not_ignore_fp_fp", "thorough", "FINGERPRINT, FINGERPRINT", "with_validation + not_ignore"),
     ("c18v_novalidate_fp_fp", "thorough", "FINGERPRINT, FINGERPRINT", "default context"))]
-_C18C += _C18V
+# the whole-decode queries with validation on (c18v_*) exhaust the memory cap (13-21 GB) and one of them ends in a
+# memory-model failure that is being investigated: not registered.  The unit-level query below is.
+_C18C += [H("stunrs", CTX + n, tier="quick", timeout=900, mem_gb=8, covers=(2 if "fingerprint" in n else 1), stubs=[NOFMT, FPANY], playback=False,
+            bounds="one %s attribute, every option set (context absent / validation / not_ignore / unknown data), both verdicts of the primitive" % k,
+            funcs=["context::validate_attribute", "StunAttribute::as_verifiable_ref", "DecoderContextBuilder::{with_validation,not_ignore,with_unknown_data}"])
+          for (n, k) in (("c18_validate_unit_fingerprint", "FINGERPRINT (verifiable)"), ("c18_validate_unit_priority", "PRIORITY (not verifiable)"))]
+_C18C += [H("stunrs", "verif_values::c18_unknown_new_l%d" % n, tier=t, timeout=600, mem_gb=6, covers=None, stubs=[NOFMT],
+            bounds="unknown attribute with a %d-byte raw value, every type code, with / without data" % n, funcs=["Unknown::new", "Unknown::attribute_data", "Unknown::attribute_type", "<Unknown as Clone>::clone"])
+          for (n, t) in ((4, "quick"), (0, "thorough"), (7, "thorough"))]
 prop("C18", [H("stunrs", CTX + "c18_registry_small_agrees", timeout=300, mem_gb=3, covers=None, bounds="7 type codes", funcs=["registry (generated)"])] + _C18C,
      outside="validation-on vs validation-off (needs MAC/CRC primitives on symbolic buffers); with_unknown_data (the query with a stored unknown value ran out of memory); symbolic attribute types / other layouts (11-19 GB); only the two concrete type patterns listed are decided",
      assumptions=["the decoded attributes are observed where the decoder hands them to StunMessageBuilder::with_attribute (recording stub)"])
@@ -534,3 +546,34 @@ DESCR["C18"] = {
     "note": "Partial claim: the validation relation and with_unknown_data are not decided (see outside). The ordering rule itself is decided for all sequences by the C09 kernel.",
 }
 NOT_APPLICABLE.pop("C18", None)
+
+DATASTUB = "<Data as EncodeAttributeValue>::encode -> size-only stub (bounds check + returned size, no 64 KiB copy); buffers uninitialised"
+_C14_64K = [H("stunrs", MSG + "c14_64k_l%d" % l, tier=t, timeout=1800, mem_gb=16, covers=None, stubs=[NOFMT, TID, DATASTUB],
+              bounds="message = DATA(%d bytes) + DONT-FRAGMENT: %d attribute bytes (concrete), 65600-byte buffer" % (l, 4 + l + ((4 - (l & 3)) & 3) + 4),
+              funcs=["MessageEncoder::encode (length accumulator, header length, returned size)"])
+            for (l, t) in ((65496, "quick"), (65508, "quick"), (65524, "quick"), (65527, "thorough"), (65528, "quick"), (65535, "thorough"))]
+# _C14_64K is not registered: even with concrete sizes and the copy stubbed the 65 600-byte buffer needs > 22 GB (measured)
+
+# client-level halves of C06 / C11 / C15 (glue queries over the contract models)
+PROPS["C11"] = PROPS["C11"] + _G_TIMEOUT1[:3] + [_G_TIMEOUT2[3], _G_TIMEOUT2[0], _G_TIMEOUT2[1]] + [_G_SEND[1], _G_SEND[2]]
+PROPS["C06"] = PROPS["C06"] + [_G_TIMEOUT1[1], _G_TIMEOUT1[2], _G_SEND[2]]
+PROPS["C15"] = PROPS["C15"] + _G_RTT + [_G_RECV[1], _G_TIMEOUT1[1]]
+DESCR["C11"]["level"] += " Client level (agent-slice glue over the queue contract model): after send_request and after on_timeout with any subset of <= 2 deadlines due, a notification is the last event exactly when a request is still outstanding, names an outstanding request with the earliest deadline and carries the queue's remaining time."
+DESCR["C11"]["note"] = "Kernel + glue. The 'consequently every request finishes' sentence is the composition argument of DESIGN.md §3 C11 over the verified pieces, not a further solver query. Trusted: Kani/CBMC, Instant by transmute, non-recursive Instant subtraction stub, environment models of the slice build."
+DESCR["C06"]["level"] += " Client level (glue): one schedule step per expired deadline; Some(interval) -> exactly one OutputPacket that is the packet first sent, re-queued at (now, interval); None -> TransactionFailed and removal; send_request queues (send instant, first interval)."
+DESCR["C15"]["level"] += " Client level (glue): an RTT sample is fed exactly when a response finishes a never-retransmitted request, with value now - sent; a retransmission clears the send instant (Karn); the estimate is reset iff more than 600 s passed since the previous request."
+
+EXTRA = {"C14": {"mir2smt": True}}
+META["C14"]["outside"] = "messages longer than 48 bytes under Kani; at the 64 KiB boundary only the length arithmetic is decided (second engine: every other call of the encode loop is havocked, memory effects ignored)"
+DESCR["C14"]["level"] += " The 64 KiB half is decided by a second engine on the compiler's MIR of the working tree (one encode-loop iteration + epilogue from an arbitrary reachable accumulator value, bit-vector SMT, z3 with cvc5 cross-check): dev MIR — no overflow assertion is violable; release MIR — the accumulator and the returned size never wrap; sat answers are replayed natively in both profiles."
+DESCR["C14"]["note"] = "Kani part: small messages (one attribute, <= 48 bytes) and every attribute encoder with every slice length. MIR part: integer arithmetic only; all calls except the ?-plumbing, try_from/try_into/into, checked_add/ok_or_else and common::padding are havocked (listed in evidence)."
+
+PROPS["C19"] = PROPS["C19"] + [
+    H("stunrs", VAL + "c19_algorithm_values", tier="thorough", timeout=900, mem_gb=10, covers=None, stubs=[NOFMT], bounds="all u16 algorithm ids, 0..3 parameter bytes", funcs=["Algorithm::new/from/algorithm/parameters/clone", "PasswordAlgorithm::new/algorithm/parameters"]),
+    H("stunrs", VAL + "c19_transaction_id_and_cookie", timeout=600, mem_gb=4, covers=None, stubs=[NOFMT], bounds="all 12-byte ids, all 4-byte cookie candidates", funcs=["TransactionId::from/as_bytes/as_ref", "Cookie PartialEq impls"]),
+    H("stunrs", VAL + "c19_message_builder_accessors", tier="thorough", timeout=900, mem_gb=10, covers=None, stubs=[NOFMT, TID], bounds="all methods, 0 or 1 attribute", funcs=["StunMessageBuilder::*", "StunMessage::method/class/attributes/get", "StunAttribute::is_*/as_*"]),
+]
+
+# PASSWORD-ALGORITHMS list walk / layout also decide sentences of C02 (layout, zero inner padding) and C03 (arbitrary bytes)
+PROPS["C02"] = PROPS["C02"] + [_pa_layout(3, "quick"), _pa_layout(2, "thorough"), _pa_layout(4, "thorough")]
+PROPS["C03"] = PROPS["C03"] + [_pa_walk(16, "thorough"), _pa_walk(24, "thorough")]
